@@ -73,6 +73,17 @@ def external_cases(pool):
                 if route == "result":
                     t += 'FUNCTION F!(X#)\r\nF! = X#\r\nEND FUNCTION\r\n'
                 texts.append(("ext:double-to-single/%s%s/%s" % (sg, nm, route), t, ""))
+    # unary operators on operands of every type stored into targets of every type (NOT keeps / converts like the other logical
+    # operators; what is stored must be a value of the target's own type)
+    for tt, sf in SFX.items():
+        for st_, ssf in SFX.items():
+            for v in ("7", "70000", "-3", "32767", "-32768", "40000.4"):
+                if ssf == "%" and v in ("70000", "40000.4"):
+                    continue
+                for op in ("NOT ", "-", "NOT -", "- NOT "):
+                    body = "ON ERROR RESUME NEXT\r\nA%s = %s\r\nT%s = %sA%s\r\nDIM E%s(1)\r\nE%s(1) = %sA%s\r\nP %sA%s\r\nPRINT \"ok\"\r\nSUB P(X%s)\r\nY%s = X%s\r\nEND SUB\r\n" % (
+                        ssf, v, sf, op, ssf, sf, sf, op, ssf, op, ssf, sf, sf, sf)
+                    texts.append(("ext:unary/%s<-%s" % (tt, st_), body, ""))
     # a variable / function result / array element of every type that is never given a value: a zero of its own type
     for tt, sf in SFX.items():
         use = 'T%s = X%s\r\nDIM A%s(2)\r\nA%s(1) = X%s\r\nT%s = T%s + 32767\r\nT%s = T%s + 1\r\nPRINT "ok"\r\n' % ((sf,) * 9)
